@@ -456,6 +456,29 @@ def wLoop (n k : Nat) (P : Nat → List Vec) (oracle : List Vec → Vec → Opti
 /-- `addDefaultEntry`: the all-zero choice is tried and is the only agenda entry; U is empty -/
 def wInit (k : Nat) : WState := ⟨[], [List.replicate k 0], [List.replicate k 0]⟩
 
+/-! ## `findBestAtPoint` with its tie-break, and `crossSumBestAtBelief` built on it -/
+
+/-- `veccmp(a, b) > 0`: at the first index where they differ, `a` is larger -/
+def vecGt : Nat → Vec → Vec → Bool
+  | 0, _, _ => false
+  | n+1, a, b => vecGt n a b || (allLt n (fun i => decide (a.get i = b.get i)) && decide (b.get n < a.get n))
+
+/-- `findBestAtPoint(point, begin, end)` as written: scan forward, replace on a larger value or on an equal value with a
+    lexicographically greater vector -/
+def bestAtV (n : Nat) (b : Vec) : List Vec → Vec
+  | [] => vzero n
+  | x :: r => r.foldl (fun best y =>
+      if dot n b best < dot n b y || (decide (dot n b y = dot n b best) && vecGt n y best) then y else best) x
+
+def bestRowToV (n : Nat) (b : Vec) : Nat → (Nat → List Vec) → Vec
+  | 0, _ => vzero n
+  | k+1, P => vadd n (bestRowToV n b k P) (bestAtV n b (P k))
+
+/-- `crossSumBestAtBelief(b, projs)` with `findBestAtPoint`'s tie-break inside each observation; first action on equal values -/
+def bestBackupAtV (m : Model) (τ : Rat) (Γ : List Vec) (b : Vec) : Vec :=
+  let val := fun a => dot m.S b (bestRowToV m.S b m.O (projList m τ Γ a))
+  bestRowToV m.S b m.O (projList m τ Γ (argmaxTo (m.A - 1) val))
+
 /-! ## LinearSupport: the agenda loop of `LinearSupport::operator()` for one timestep (vertex enumeration = oracle parameter) -/
 
 /-- `struct Vertex { belief, support, currentValue, error }` -/
@@ -472,19 +495,19 @@ structure LSState where
   tried : List Vec
   verts : List Vec
 
-/-- the `for` over `vertices`: skip tried ones; `trueValue`/`support` from `crossSumBestAtBelief(vertex, projections)`,
+/-- the `for` over `vertices`: skip tried ones; `trueValue`/`support` from `crossSumBestAtBelief(vertex, projections)` (= `sup vertex`),
     `currentValue` recomputed with `findBestAtPoint` over goodSupports; push when `acc (trueValue - currentValue)`
     (`diff > tolerance_ && checkDifferentGeneral(diff, tolerance_)`); always mark tried -/
-def lsScan (m : Model) (τ : Rat) (Γ : List Vec) (acc : Rat → Bool) (good : List Vec) :
+def lsScan (m : Model) (sup : Vec → Vec) (acc : Rat → Bool) (good : List Vec) :
     List Vec → List LSVertex → List Vec → List LSVertex × List Vec
   | [], ag, tr => (ag, tr)
   | x :: xs, ag, tr =>
-    if tr.any (fun y => y == x) then lsScan m τ Γ acc good xs ag tr
+    if tr.any (fun y => y == x) then lsScan m sup acc good xs ag tr
     else
-      let sup := bestBackupAt m τ Γ x
+      let sp := sup x
       let cur := env m.S good x
-      let diff := dot m.S x sup - cur
-      lsScan m τ Γ acc good xs (if acc diff then ag ++ [⟨x, sup, cur, diff⟩] else ag) (x :: tr)
+      let diff := dot m.S x sp - cur
+      lsScan m sup acc good xs (if acc diff then ag ++ [⟨x, sp, cur, diff⟩] else ag) (x :: tr)
 
 /-- `agenda_.top()`: an entry of largest error (first one among equals) -/
 def lsTop : List LSVertex → Option LSVertex
@@ -495,8 +518,8 @@ def lsTop : List LSVertex → Option LSVertex
     | none => some v
 
 /-- one pass of the `do { … } while (true)` body; `none` = `break` (agenda empty after the scan) -/
-def lsStep (m : Model) (τ : Rat) (Γ : List Vec) (acc : Rat → Bool) (oracle : Vec → List Vec → List Vec) (st : LSState) : Option LSState :=
-  let r := lsScan m τ Γ acc st.good st.verts st.agenda st.tried
+def lsStep (m : Model) (sup : Vec → Vec) (acc : Rat → Bool) (oracle : Vec → List Vec → List Vec) (st : LSState) : Option LSState :=
+  let r := lsScan m sup acc st.good st.verts st.agenda st.tried
   match lsTop r.1 with
   | none => none
   | some best =>
@@ -505,22 +528,22 @@ def lsStep (m : Model) (τ : Rat) (Γ : List Vec) (acc : Rat → Bool) (oracle :
                   (fun v => !(decide (v.currentValue < dot m.S v.belief best.support)))
     some ⟨st.good ++ [best.support], rest, r.2, oracle best.support st.good⟩
 
-def lsLoop (m : Model) (τ : Rat) (Γ : List Vec) (acc : Rat → Bool) (oracle : Vec → List Vec → List Vec) : Nat → LSState → LSState
+def lsLoop (m : Model) (sup : Vec → Vec) (acc : Rat → Bool) (oracle : Vec → List Vec → List Vec) : Nat → LSState → LSState
   | 0, st => st
-  | f+1, st => match lsStep m τ Γ acc oracle st with
-    | none => { st with agenda := [], tried := (lsScan m τ Γ acc st.good st.verts st.agenda st.tried).2, verts := [] }
-    | some st' => lsLoop m τ Γ acc oracle f st'
+  | f+1, st => match lsStep m sup acc oracle st with
+    | none => { st with agenda := [], tried := (lsScan m sup acc st.good st.verts st.agenda st.tried).2, verts := [] }
+    | some st' => lsLoop m sup acc oracle f st'
 
 /-- unit vector e_s -/
 def cornerB (n s : Nat) : Vec := mkVec n (fun i => if i = s then 1 else 0)
 
 /-- supports of the corners, duplicates dropped (`allSupports.emplace` / `inserted`) -/
-def lsCorners (m : Model) (τ : Rat) (Γ : List Vec) : Nat → List Vec
+def lsCorners (m : Model) (sup : Vec → Vec) : Nat → List Vec
   | 0 => []
   | s+1 =>
-    let g := lsCorners m τ Γ s
-    let sup := bestBackupAt m τ Γ (cornerB m.S s)
-    if g.any (fun y => y == sup) then g else g ++ [sup]
+    let g := lsCorners m sup s
+    let sp := sup (cornerB m.S s)
+    if g.any (fun y => y == sp) then g else g ++ [sp]
 
 /-- convex combination Σ λ_i x_i of weighted points -/
 def combo (n : Nat) (L : List (Rat × Vec)) : Vec := mkVec n (fun s => (L.map (fun p => p.1 * p.2.get s)).sum)
